@@ -139,6 +139,51 @@ void vf_harness(void)
 NS_XV = 3
 
 
+def unit_zstar_mean():
+    """simple kriging through the algebraic calculator: the known means are added back to the estimate in the primal and in the dual form alike"""
+    from tools.vf import Fn, Unit
+    pre = """
+#define nullptr 0
+int nondet_int(); bool nondet_bool(); double nondet_double();
+int g_means_added, g_other_added;
+struct VectorInt { int n; };
+struct VectorDouble { int n; int tag; VectorDouble() : n(0), tag(0) {} bool empty() const { return n <= 0; } void clear() { n = 0; } };
+struct Mat { VectorDouble prodMatVec(const VectorDouble& v, bool transpose = false) const { VectorDouble r; r.n = nondet_int(); __CPROVER_assume(r.n >= 1); r.tag = 0; return r; } };
+/* tag 7 marks the vector of known means (and what is sampled from it) */
+struct VH { static void linearCombinationInPlace(double, const VectorDouble& a, double, const VectorDouble& b, VectorDouble& out) { if (b.tag == 7) g_means_added++; else g_other_added++; }
+  static VectorDouble sample(const VectorDouble& v, const VectorInt& r) { VectorDouble o; o.n = nondet_int(); __CPROVER_assume(o.n >= 1); o.tag = v.tag; return o; } };
+class KrigingCalcul { public:
+  VectorDouble _Zstar, _bDual, _cDual, _Beta, _Z0p; bool _flagDual, _flagSK, _flagBayes; int _nbfl, _nxvalid, _ncck;
+  Mat* _Sigma0; Mat* _X0; Mat* _LambdaSK; Mat* _LambdaUK; Mat* _Y0; Mat* _Lambda0; const VectorDouble* _Z; const VectorDouble* _Means; const VectorInt* _rankXvalidVars;
+  int _needDual() { return nondet_bool(); } int _needSigma0() { return nondet_bool(); } int _needX0() { return nondet_bool(); } int _needZ() { return nondet_bool(); }
+  int _needLambdaSK() { return nondet_bool(); } int _needLambdaUK() { return nondet_bool(); } int _needY0() { return nondet_bool(); } int _needBeta() { return nondet_bool(); } int _needZ0p() { return nondet_bool(); }
+  int _needZstar(); };
+"""
+    f = Fn("KrigingCalcul::_needZstar", "src/Estimation/KrigingCalcul.cpp", r"^int KrigingCalcul::_needZstar\(\)\s*$")
+    h = """
+void vf_harness()
+{
+  KrigingCalcul K; Mat m; VectorDouble Z, means; VectorInt ranks; Z.n = 3; Z.tag = 0;
+  means.n = nondet_int(); __CPROVER_assume(0 <= means.n && means.n <= 2); means.tag = 7;
+  K._Zstar.n = 0; K._flagDual = nondet_bool(); K._nbfl = nondet_int(); __CPROVER_assume(0 <= K._nbfl && K._nbfl <= 2); K._flagSK = (K._nbfl <= 0); K._flagBayes = 0;
+  K._nxvalid = nondet_int(); __CPROVER_assume(0 <= K._nxvalid && K._nxvalid <= 1); K._ncck = 0;
+  K._Sigma0 = &m; K._X0 = &m; K._LambdaSK = &m; K._LambdaUK = &m; K._Y0 = &m; K._Lambda0 = &m; K._Z = &Z; K._Means = &means; K._rankXvalidVars = &ranks;
+  g_means_added = 0; g_other_added = 0;
+  int rc = K._needZstar();
+  if (rc == 0 && K._nbfl <= 0)
+    __CPROVER_assert(g_means_added == (means.n > 0 ? 1 : 0), "simple kriging: the known means are added to the estimate exactly once when they are given - in the primal and in the dual form alike");
+  if (rc == 0 && K._nbfl > 0) __CPROVER_assert(g_means_added == 0, "with drift functions no mean is added");
+  VF_REACH();
+}
+"""
+    return Unit("C04.KrigingCalcul.zstar_mean", [f], mode="cpp", prelude=pre, harness=h, unwind=2, checks=[], backends=("minisat", "cadical"), timeout=300,
+                claim=("KrigingCalcul::_needZstar: in simple kriging (no drift) the vector of known means is added to the estimate exactly once when means are given, whether "
+                       "the calculator runs in primal or in dual form; with drift functions no mean is added"),
+                assumptions=["Route X; matrices and the _need* requests are stubs (may fail); vectors carry a ghost tag identifying the means"],
+                canaries=[{"fn": "KrigingCalcul::_needZstar", "rx": r"if \(!_Means->empty\(\)\)\s*\n\s*VH::linearCombinationInPlace\(1\., _Zstar, 1\., \*_Means, _Zstar\);", "rp": ";", "expect": r"assertion"}])
+
+
+
 def units(tier):
     nmax = 6 if tier == "quick" else 10
     out = []
@@ -148,6 +193,7 @@ def units(tier):
     out.append(_rename(C06.unit_sort_order(nmax), "C04.ball.sort.order", "[ball-tree k-NN results in increasing distance order] "))
     out.append(unit_optim_cell())
     out.append(unit_xvalid_unique())
+    out.append(unit_zstar_mean())
     return out
 
 
